@@ -9,8 +9,10 @@ SPEC = {
     "level": "translation_validation",
     "theorem_modules": ["GluonModel.Theorems.C08", "GluonModel.Theorems.C08Sql"],
     "correspondences": [
-        # one op line = one session on a fresh database (40-300 tokens: transactions, calls, dumps)
-        {"dialect": "db", "quick_n": 300, "thorough_n": 4000, "judge": "judge-c08-db"},
+        # one op line = one session on a fresh database (40-300 tokens: transactions, calls, dumps; probe sessions
+        # - change, look up inside the transaction, abort or commit, look up again in Read and Write - 300-2500 tokens;
+        # about a quarter of the lines, plus two directed lines that walk through every identifier-introducing method)
+        {"dialect": "db", "quick_n": 400, "thorough_n": 5000, "judge": "judge-c08-db"},
     ],
     "oracles": [],
     "rule": "one evaluation = one session (op line) of db.ReadOnly/db.Transaction calls inside committed/aborted "
@@ -45,6 +47,11 @@ SPEC = {
     "explanation": "Lean relational model of the SQLite index with one function per db.ReadOnly/db.Transaction method; "
                    "theorems: every chunked operation equals its un-chunked meaning for all list lengths (call-site facts "
                    "regenerated and decided), failed Write leaves no trace; correspondence: sessions of all 69 interface "
-                   "methods with list lengths around ChunkLimit/2, ChunkLimit, 2*ChunkLimit against the real client; judge: "
-                   "real client vs un-chunked meaning call by call",
+                   "methods with list lengths around ChunkLimit/2, ChunkLimit, 2*ChunkLimit against the real client, and probe "
+                   "sessions in which a write transaction changes something, reads it back through every lookup keyed by the "
+                   "identifiers it introduced/replaced/removed (remote ids, names, internal ids incl. the next AUTOINCREMENT "
+                   "value, message ids, message remote ids), is aborted (by returning an error or by a failing lookup) or "
+                   "committed, and the same lookups are repeated in later Read and Write transactions (state kept next to the "
+                   "SQL transaction: survives a rollback / goes stale after a commit); judge: real client vs un-chunked "
+                   "meaning call by call",
 }
